@@ -49,32 +49,28 @@ def rne (num den : Nat) : Nat :=
   let r := num % den
   if 2 * r > den || (2 * r == den && q % 2 == 1) then q + 1 else q
 
-/-- Round the positive rational num/den (den > 0) to nearest-even; returns the magnitude bits. -/
+/-- numerator and denominator of (num/den)·2^s -/
+def scaled (num den : Nat) (s : Int) : Nat × Nat := (num * 2 ^ s.toNat, den * 2 ^ (-s).toNat)
+
+/-- The shift s with 2^52 ≤ (num/den)·2^s < 2^53, capped at 1074 (gradual underflow).
+`log2 num − log2 den` is ⌊log2 (num/den)⌋ or one more, hence the single correction step. -/
+def shiftOf (num den : Nat) : Int :=
+  let s0 : Int := 52 - ((Nat.log2 num : Int) - (Nat.log2 den : Int))
+  let (n0, d0) := scaled num den s0
+  let s1 : Int := if n0 / d0 < 2 ^ 52 then s0 + 1 else s0
+  if s1 > 1074 then 1074 else s1
+
+/-- Round the positive rational num/den (den > 0) to nearest-even; returns the magnitude bits.
+With s = shiftOf and q = rne((num/den)·2^s) the result is (1074 − s)·2^52 + q: the hidden bit of
+q (≥ 2^52 for normal numbers) supplies the +1 of the biased exponent 1075 − s, a rounding carry
+to 2^53 propagates into the exponent by itself, and subnormals (s = 1074, q < 2^52) get
+exponent field 0. Overflow saturates to +Inf. -/
 def roundMag (num den : Nat) : Bits :=
   if num == 0 || den == 0 then 0 else
-  -- floor(log2(num/den)) is l0 or l0 - 1
-  let l0 : Int := (Nat.log2 num : Int) - (Nat.log2 den : Int)
-  -- scaled quotient with shift s: q = floor(num · 2^s / den)
-  let quot (s : Int) : Nat × Nat × Nat :=   -- (q, remainder numerator, remainder denominator)
-    if s ≥ 0 then
-      let n := num * 2 ^ s.toNat
-      (n / den, n % den, den)
-    else
-      let d := den * 2 ^ (-s).toNat
-      (num / d, num % d, d)
-  let s0 : Int := 52 - l0
-  let (q0, _, _) := quot s0
-  -- normalise so that 2^52 ≤ q < 2^53 (for normal numbers)
-  let s1 : Int := if q0 ≥ 2 ^ 53 then s0 - 1 else if q0 < 2 ^ 52 then s0 + 1 else s0
-  -- subnormal range: the shift is capped at 1074
-  let s : Int := if s1 > 1074 then 1074 else s1
-  let (q, r, d) := quot s
-  let q' := rne (q * d + r) d
-  -- biased exponent of a normal result: (52 - s) + 1023; composing as (be-1)·2^52 + q'
-  -- lets a rounding carry propagate into the exponent; subnormals (s = 1074) get be = 0 → q'.
-  let be : Int := 1075 - s
-  let bitsI : Int := if s == 1074 && q < 2 ^ 52 then (q' : Int) else (be - 1) * (2 ^ 52 : Int) + (q' : Int)
-  if bitsI ≥ (0x7FF0000000000000 : Int) then posInf else UInt64.ofNat bitsI.toNat
+  let s := shiftOf num den
+  let (n, d) := scaled num den s
+  let bits : Nat := (1074 - s).toNat * 2 ^ 52 + rne n d
+  if bits ≥ 0x7FF0000000000000 then posInf else UInt64.ofNat bits
 
 def roundRat (negative : Bool) (num den : Nat) : Bits :=
   let m := roundMag num den
